@@ -16,7 +16,8 @@ RULE = ('cases = corpus + generated chunked encodings (payload 0..60 bytes, rand
         '_body_read(chunked=True) and through Ombott.__call__ (status 200/400/413, Request.body; 60% of the WSGI '
         'cases ALSO carry a CONTENT_LENGTH in {0, small, payload length, raw length, larger} and a Transfer-Encoding '
         'spelled chunked/Chunked/CHUNKED/"gzip, chunked", for legal and truncated encodings; the model side runs the '
-        '_body glue body_read_env); the malformed '
+        '_body glue body_read_env; the application is configured through the constructor, app.setup(cfg), '
+        'setup() over constructor values, or a bare setup() with all defaults); the malformed '
         'stream takes strict prefixes (cut in size line / payload / terminator / at chunk start), corrupted data '
         'terminators and single-byte substitutions of framing bytes of the same encodings, plus random bytes; '
         'kind=hex cases compare int(b.strip(),16) with lib/PyIntHex.v on numeral-like byte strings. thorough: every '
@@ -89,13 +90,15 @@ def gen_sched(rng, n):
     return [rng.choice([0, 0, 1, 2, 3, 7, 20]) for _ in range(rng.randrange(1, n + 8))]
 
 
-def mk(enc, data, buf, sched, expect, note, via='func', maxb=None, payload=None, cl=None, te=None):
+def mk(enc, data, buf, sched, expect, note, via='func', maxb=None, payload=None, cl=None, te=None, conf='ctor'):
     c = dict(kind='dec', data=list(data), buf=buf, sched=sched, maxb=maxb, via=via, expect=expect, note=note,
              nchunks=enc['nchunks'] if enc else 0)
     if via == 'wsgi':
         # the request's own headers: CONTENT_LENGTH (None = absent) next to Transfer-Encoding
         c['cl'] = cl
         c['te'] = 'chunked' if te is None else te
+        c['conf'] = conf
+        assert conf != 'setup_default' or (buf == DEFAULT_MEMFILE and maxb is None)
     if expect == 'exact':
         c['payload'] = list(enc['payload'] if payload is None else payload)
     return c
@@ -117,6 +120,36 @@ def framing_positions(enc):
     return pos
 
 
+def gen_wsgi(rng, enc, data, buf, sched, conf):
+    """a request through Ombott.__call__: optionally a Content-Length next to the chunked coding; legal,
+    truncated, mis-terminated and substituted encodings"""
+    hdr = dict(conf=conf)
+    if rng.random() < 0.6:
+        hdr.update(cl=rng.choice([0, 0, 1, 3, len(enc['payload']), len(data), len(data), len(data) + 5,
+                                  rng.randrange(0, len(data) + 2)]),
+                   te=rng.choice(['chunked', 'chunked', 'Chunked', 'CHUNKED', 'gzip, chunked']))
+    r = rng.random()
+    if r < 0.4:
+        return mk(enc, data, buf, sched, expect_for(enc, buf), 'legal', 'wsgi', **hdr)
+    if r < 0.75:
+        cut = rng.randrange(0, enc['last_end']) if rng.random() < 0.7 else rng.choice(
+            [t for t in enc['terms']] + [a for a, b in enc['lines']])
+        if 'cl' in hdr:
+            hdr['cl'] = rng.choice([hdr['cl'], cut, 0])
+        return mk(enc, data[:cut], buf, sched, expect_for(enc, buf, cut), 'prefix', 'wsgi', **hdr)
+    if r < 0.87 and enc['terms']:
+        t = rng.choice(enc['terms']) + rng.randrange(2)
+        new = rng.choice([x for x in (0, 10, 13, 48, 32, rng.randrange(256)) if x != data[t]])
+        return mk(enc, data[:t] + bytes([new]) + data[t + 1:], buf, sched, 'reject', 'badterm', 'wsgi', **hdr)
+    if r < 0.95 or 'cl' in hdr:
+        fp = framing_positions(enc)
+        t = rng.choice(fp)
+        new = rng.choice([0, 10, 13, 32, 43, 45, 48, 49, 59, 95, 102, 120, 255, rng.randrange(256)])
+        return mk(enc, data[:t] + bytes([new]) + data[t + 1:], buf, sched, 'any', 'subst', 'wsgi', **hdr)
+    return mk(enc, data, buf, sched, 'any', 'not-chunked', 'wsgi', cl=rng.choice([0, 3, len(data)]),
+              te=rng.choice(['identity', '', 'chunke']), conf=conf)
+
+
 def gen_dec(rng):
     enc = gen_encoding(rng)
     data = enc['data']
@@ -126,25 +159,13 @@ def gen_dec(rng):
         buf = rng.randrange(1, enc['maxline'])
     sched = gen_sched(rng, len(data))
     via = 'wsgi' if rng.random() < 0.4 else 'func'
-    hdr = {}
-    if via == 'wsgi' and rng.random() < 0.6:
-        # a chunked request that ALSO carries a Content-Length: the transfer coding wins
-        hdr = dict(cl=rng.choice([0, 0, 1, 3, len(enc['payload']), len(data), len(data), len(data) + 5,
-                                  rng.randrange(0, len(data) + 2)]),
-                   te=rng.choice(['chunked', 'chunked', 'Chunked', 'CHUNKED', 'gzip, chunked']))
+    if via == 'wsgi':
+        # how the application got its configuration (the errors_map must reach the request either way)
+        conf = rng.choice(['ctor', 'ctor', 'setup', 'setup', 'setup_over', 'setup_default'])
+        if conf == 'setup_default':
+            buf = DEFAULT_MEMFILE
+        return gen_wsgi(rng, enc, data, buf, sched, conf)
     r = rng.random()
-    if hdr:
-        # legal and truncated encodings only: the oracle's expectation does not depend on the headers
-        if r < 0.5:
-            return mk(enc, data, buf, sched, expect_for(enc, buf), 'legal', via, **hdr)
-        cut = rng.randrange(0, enc['last_end']) if rng.random() < 0.7 else rng.choice(
-            [t for t in enc['terms']] + [a for a, b in enc['lines']])
-        hdr['cl'] = rng.choice([hdr['cl'], cut, 0])
-        return mk(enc, data[:cut], buf, sched, expect_for(enc, buf, cut), 'prefix', via, **hdr)
-    if via == 'wsgi' and rng.random() < 0.05:
-        # no chunked coding at all: the Content-Length loop (correspondence only)
-        return mk(enc, data, buf, sched, 'any', 'not-chunked', via, cl=rng.choice([0, 3, len(data)]),
-                  te=rng.choice(['identity', '', 'chunke']))
     if r < 0.38:
         return mk(enc, data, buf, sched, expect_for(enc, buf), 'legal', via)
     if r < 0.62:
@@ -243,6 +264,16 @@ def corpus():
               b'+-1', b'- 1', b'+', b' 1f ', b'\t\n\r\x0b\x0c1f\x0b', b'\x1c1', b'1 f', b'0_x1', b'-0x1f', b'00x1',
               b'1\x002', b'\x801', b'0b1', b'-_1', b'0x_1_2', b'0X_', b'-0'):
         out.append(dict(kind='hex', b=list(b)))
+    # applications configured through app.setup(): the errors_map must reach the request object
+    # (seeded change C05/change6: setup() handed the raw dict to Request.setup -> bare exceptions -> 500)
+    for conf in CONFS:
+        b = DEFAULT_MEMFILE if conf == 'setup_default' else 8
+        out.append(mk(dict(nchunks=1, payload=b'abcdefgh'), legal, b, [], 'exact', 'legal', 'wsgi', conf=conf))
+        out.append(mk(dict(nchunks=1), trunc, b, [], 'reject', 'prefix', 'wsgi', conf=conf))
+        out.append(mk(dict(nchunks=1), b'3\r\nabcXX0\r\n\r\n', b, [], 'reject', 'badterm', 'wsgi', conf=conf))
+        out.append(mk(dict(nchunks=1), b'zz\r\nabc\r\n0\r\n\r\n', b, [], 'any', 'subst', 'wsgi', conf=conf))
+    out.append(mk(dict(nchunks=1), legal, 4, [], 'any', 'legal', 'wsgi', maxb=5, conf='setup'))
+    out.append(mk(dict(nchunks=1), legal, 4, [], 'any', 'legal', 'wsgi', maxb=5, conf='setup_over'))
     return out
 
 
@@ -276,6 +307,31 @@ def thorough():
 # implementation side
 # --------------------------------------------------------------------------
 
+DEFAULT_MEMFILE = 100 * 1024
+CONFS = ('ctor', 'setup', 'setup_over', 'setup_default')
+
+
+def make_app(conf, buf, maxb):
+    """the application configured the ways the API offers: through the constructor, through
+    app.setup(config) on a default app, through setup() overriding constructor values, and through a bare
+    setup() (all defaults: max_memfile_size 100 KiB, no max_body_size)"""
+    from ombott import Ombott
+    cfg = dict(max_memfile_size=buf, max_body_size=maxb)
+    if conf == 'ctor':
+        return Ombott(cfg)
+    if conf == 'setup':
+        app = Ombott()
+        app.setup(cfg)
+        return app
+    if conf == 'setup_over':
+        app = Ombott(dict(max_memfile_size=buf + 3, max_body_size=1))
+        app.setup(cfg)
+        return app
+    assert conf == 'setup_default' and buf == DEFAULT_MEMFILE and maxb is None
+    app = Ombott(dict(max_memfile_size=5, max_body_size=2))
+    app.setup()
+    return app
+
 def run_impl(case):
     if case['kind'] == 'hex':
         try:
@@ -295,8 +351,7 @@ def run_impl(case):
         spilled = not isinstance(body, BytesIO)
         body.seek(0)
         return dict(status='ok', body=list(body.read()), spilled=spilled, reqs=st.log, pos=st.pos)
-    from ombott import Ombott
-    app = Ombott(dict(max_memfile_size=case['buf'], max_body_size=case['maxb']))
+    app = make_app(case.get('conf', 'ctor'), case['buf'], case['maxb'])
     seen = {}
 
     def handler():
@@ -370,7 +425,8 @@ def oracle(case, obs):
     st = obs.get('status')
     allowed = ('ok', 'parse_error') + (('too_large',) if case['maxb'] is not None else ())
     if st not in allowed:
-        return 'chunked body caused %s instead of acceptance or a client error' % (obs,)
+        return 'chunked body caused %s instead of acceptance or a client error%s' % (
+            obs, ' (application configured through %s)' % case['conf'] if case.get('conf', 'ctor') != 'ctor' else '')
     if st == 'too_large':
         return None
     buf = case['buf']
@@ -412,13 +468,14 @@ def key(case):
     if case['kind'] == 'hex':
         return ('hex', tuple(case['b']))
     return (tuple(case['data'][:80]), len(case['data']), case['buf'], tuple(case['sched'][:8]), case['via'],
-            case['maxb'], case.get('cl'), case.get('te'))
+            case['maxb'], case.get('cl'), case.get('te'), case.get('conf'))
 
 
 def classify(case, obs):
     if case['kind'] == 'hex':
         return 'hex/%s' % ('value' if obs.get('value') is not None else 'ValueError')
-    via = case['via'] + ('+CL' if case.get('cl') is not None else '')
+    via = case['via'] + ('+CL' if case.get('cl') is not None else '') + (
+        '' if case.get('conf', 'ctor') == 'ctor' else '+' + case['conf'])
     return '%s/%s/%s/%s/%s' % (via, case['note'], case['expect'],
                                'sched' if case['sched'] else 'full-reads', obs.get('status'))
 
